@@ -400,8 +400,14 @@ func drive(id, tier string) int {
 		cov["samples"] = []any{"(no sample recorded)"}
 	}
 	eb, _ := json.MarshalIndent(ev, "", " ")
-	os.MkdirAll(filepath.Join(verifDir, "evidence"), 0o755)
-	os.WriteFile(filepath.Join(verifDir, "evidence", id+".json"), eb, 0o644)
+	// (VERIF_EVIDENCE_DIR: sweeps at other seeds keep their evidence apart from the
+	// committed evidence/<id>.json)
+	evDir := filepath.Join(verifDir, "evidence")
+	if d := os.Getenv("VERIF_EVIDENCE_DIR"); d != "" {
+		evDir = d
+	}
+	os.MkdirAll(evDir, 0o755)
+	os.WriteFile(filepath.Join(evDir, id+".json"), eb, 0o644)
 
 	fmt.Printf("SUMMARY property=%s tier=%s seed=%d evaluations=%d distinct_nontrivial=%d violations=%d known=%d inconclusive=%d wall_s=%.1f\n",
 		id, tier, seed, evals, len(nt), unlisted, len(knownSeen), len(inconc), wall)
